@@ -106,15 +106,23 @@ def main():
                               outcome_abs(lambda: abs_val(*c).if_else(abs_val(*a), abs_val(*b)))])
     out = []
 
-    def abs_from_context(e, val):
-        """the way a user supplies concrete values: Abstract.initialize(context) and typed Inputs that look their value up"""
+    kept_inputs = {}      # Input objects that outlive one evaluation (declared at module level, the program run again)
+
+    def abs_from_context(e, val, keep=False):
+        """the way a user supplies concrete values: Abstract.initialize(context) and typed Inputs that look their value up;
+        keep: the Input objects are created once per process and wrapped again under every new context"""
         ab.Abstract.initialize(context={f"v{j}": v for j, v in enumerate(val)})
         pty = ab.Party("P")
 
         def mk(mode, base, value):
             if mode == "Const" or base != "Int":
                 return abs_val(mode, base, value)
-            return getattr(ab, MODES[mode] + BASE[base])(ab.Input(f"v{mk.idx}", pty))
+            name = f"v{mk.idx}"
+            if keep:
+                if name not in kept_inputs:
+                    kept_inputs[name] = ab.Input(name, pty)
+                return getattr(ab, MODES[mode] + BASE[base])(kept_inputs[name])
+            return getattr(ab, MODES[mode] + BASE[base])(ab.Input(name, pty))
 
         def go(x):
             k = x[0]
@@ -134,7 +142,7 @@ def main():
                         "abs": outcome_abs(lambda: ev_shared(e, abs_val, val, {}))})
             continue
         out.append({"real": outcome_real(lambda: ev(e, lambda m, b, v: real_val(m, b), None)),
-                    "abs": outcome_abs((lambda: abs_from_context(e, val)) if via_context else (lambda: ev(e, abs_val, val)))})
+                    "abs": outcome_abs((lambda: abs_from_context(e, val, keep=(k % 4 == 0))) if via_context else (lambda: ev(e, abs_val, val)))})
     ab.Abstract.initialize()
     json.dump({"table": table, "exprs": out}, sys.stdout)
 
